@@ -132,6 +132,17 @@ Fixpoint body (q : N) (triple : bool) (s : text) : lit :=
 
 Definition is_blank (c : N) : bool := (c =? 32) || (c =? 9) || (c =? 10) || (c =? 12).
 
+(* what may follow the literal: blanks on its line, then empty lines only (a blank line with spaces on it is
+   an IndentationError for the tokenizer) *)
+Fixpoint blank_tail (s : text) : bool :=
+  match s with
+  | [] => true
+  | c :: r =>
+      if c =? 10 then forallb (N.eqb 10) r
+      else if (c =? 32) || (c =? 9) || (c =? 12) then blank_tail r
+      else false
+  end.
+
 Inductive res : Type :=
 | ROk (t : text)
 | RErr                      (* literal_eval raises *)
@@ -154,7 +165,7 @@ Definition py_str_literal_eval (s0 : text) : res :=
       if is_quote q then
         let (triple, r') := open_quote q r in
         match body q triple r' with
-        | LOk t rest => if forallb is_blank rest then ROk t else RUnsup
+        | LOk t rest => if blank_tail rest then ROk t else RUnsup
         | LErr => RErr
         | LUnsup => RUnsup
         end
